@@ -24,10 +24,11 @@ type transInfo struct {
 	transparent map[*ssa.Function]bool
 	callers     map[*ssa.Function][]ssa.CallInstruction // static call sites (Call only; not go/defer) in library code
 	deepCache   map[*ssa.Function][]ssa.Instruction
+	alias       map[*ssa.Function]string // a baseline function that was re-signed (method <-> function): its baseline name
 }
 
 func (p *Prog) initTransparency() {
-	ti := &transInfo{transparent: map[*ssa.Function]bool{}, callers: map[*ssa.Function][]ssa.CallInstruction{}, deepCache: map[*ssa.Function][]ssa.Instruction{}}
+	ti := &transInfo{alias: map[*ssa.Function]string{}, transparent: map[*ssa.Function]bool{}, callers: map[*ssa.Function][]ssa.CallInstruction{}, deepCache: map[*ssa.Function][]ssa.Instruction{}}
 	p.ti = ti
 	lib := p.LibFuncs()
 	for _, f := range lib {
@@ -70,6 +71,26 @@ func (p *Prog) initTransparency() {
 			continue
 		}
 		if invBase[short(fnPkgPath(f))+"."+f.Name()] {
+			// which baseline name did it have? (unique, and no longer present under that name)
+			var old []string
+			for n := range inventory {
+				if strings.Contains(n, "$") || baseName(n) != f.Name() || p.fnIdx[n] != nil {
+					continue
+				}
+				pkg := strings.TrimPrefix(strings.TrimPrefix(n, "("), "*")
+				if i := strings.Index(pkg, ")"); i >= 0 {
+					pkg = pkg[:i]
+				}
+				if i := strings.LastIndex(pkg, "."); i >= 0 {
+					pkg = pkg[:i]
+				}
+				if pkg == short(fnPkgPath(f)) {
+					old = append(old, n)
+				}
+			}
+			if len(old) == 1 {
+				ti.alias[f] = old[0]
+			}
 			continue
 		}
 		if len(ti.callers[f]) == 0 {
@@ -351,7 +372,7 @@ func viPathExists(root *ssa.Function, from, to ssa.Instruction, cutEdge EdgePred
 				if k, isK := constBool(cond); isK && k != br {
 					continue
 				}
-				if cutEdge != nil && cutEdge(cond, br) {
+				if applyCut(cutEdge, cond, br) {
 					continue
 				}
 				if len(pt.ret) > 0 && infeasibleEdge(cond, br) {
@@ -532,7 +553,7 @@ func viPathToSite(root *ssa.Function, s Site, cutEdge EdgePred, cutInstr func(ss
 				if k, isK := constBool(cond); isK && k != br {
 					continue
 				}
-				if cutEdge != nil && cutEdge(cond, br) {
+				if applyCut(cutEdge, cond, br) {
 					continue
 				}
 				if len(pt.ret) > 0 && infeasibleEdge(cond, br) {
@@ -655,4 +676,23 @@ func resolveBoolPhi(c ssa.Value, env map[*ssa.Phi]ssa.Value) ssa.Value {
 		return ssa.NewConst(constant.MakeBool(!k), v.Type())
 	}
 	return c
+}
+
+// pathExistsUnder is pathExists with the search rooted in one given function (a helper shared by several callers is
+// entered from this root only).
+func pathExistsUnder(root *ssa.Function, from, to ssa.Instruction, cutEdge EdgePred, cutInstr func(ssa.Instruction) bool) bool {
+	return viPathExists(root, from, to, cutEdge, cutInstr)
+}
+
+// anonFuncsDeep lists the function literals of f and of the helpers f is looked through into.
+func anonFuncsDeep(f *ssa.Function) []*ssa.Function {
+	out := append([]*ssa.Function{}, f.AnonFuncs...)
+	seen := map[*ssa.Function]bool{}
+	for _, in := range instrs(f) {
+		if callee := transparentCallee(in); callee != nil && !seen[callee] {
+			seen[callee] = true
+			out = append(out, callee.AnonFuncs...)
+		}
+	}
+	return out
 }
